@@ -301,8 +301,8 @@ CLAIMED = {
         "only when EVERY open bracket is a plain `(` - inside any @( / $( / !( ... group it never is, whatever is nested on top. "
         "Bounded stand-ins (not proved): 11 command lines x 1..4 (thorough 5) physical lines x 7 statement positions (top level, after `;`, if / for-in-def "
         "/ try / with / while-in-if-in-def) x {no chain, &&, and, ||}: the bare source and the hand-wrapped ![...] source compile to the same program through the "
-        "real Execer; C02's probe programs (names bound only in inner scopes do not stop the wrap); command lines include a Python call inside @( ); one-line chains of up to 20 (thorough 40) commands x 4 operators and scripts of up to 24 (48) chain lines.",
-   note="One genuine defect repaired (fix: dde0af8: a one-line chain of 12+ bare commands was a SyntaxError - the retry budget ignored chain operators). KNOWN FINDING (recorded): a chain segment that is also valid Python (`ls -l /tmp && ...`) is wrapped without in_boolop=True. Unverified: termination of the "
+        "real Execer; C02's probe programs (names bound only in inner scopes do not stop the wrap); command lines include a Python call inside @( ); one-line chains of up to 20 (thorough 40) commands x 4 operators and scripts of up to 24 (48) chain lines; chains continued over a backslash (operator before / after the break, segments that also parse as Python) compared by the commands they run.",
+   note="Two genuine defects repaired (fix: dde0af8: a one-line chain of 12+ bare commands was a SyntaxError - the retry budget ignored chain operators; e8bb740: `ls -l and \\<newline> pwd -P` compiled to `pwd -P and pwd -P`). KNOWN FINDING (recorded): a chain segment that is also valid Python (`ls -l /tmp && ...`) is wrapped without in_boolop=True. Unverified: termination of the "
         "parser / lexer / helper calls inside the retry loop's body and its depth-1 recursion (so 'for all input strings' is proved only modulo those), subproc_toks / find_next_break / "
         "_abs_lexpos / balanced_parens, replace_logical_line, strip_continuation_comments, _have_open_triple_quotes (a ghost predicate here), "
         "CtxAwareTransformer.try_subproc_toks / _column_window, the lexer's whitespace synthesis. Trusted: pyvc engine + models + z3.",
